@@ -60,6 +60,7 @@ class UnitResult:
         self.obligations = 0
         self.discharged = 0
         self.wall_s = 0.0
+        self.unconfirmed = []      # failures of the full run that vanish when the function is verified alone (solver instability, not violations)
 
 
 def _line_text_norm(unit, out_line):
@@ -108,41 +109,9 @@ def run_verus(path, extra=(), timeout=900):
     return cmd, js, diags, wall, p.stderr if js is None else ""
 
 
-def check_unit(tpl_path, vacuity=True, keep=True):
-    """assemble + verify one unit; returns UnitResult"""
-    res = UnitResult()
-    t0 = time.time()
-    os.makedirs(WORK, exist_ok=True)
-    name = os.path.basename(tpl_path).replace(".rs.tpl", "")
-    unit = X.Unit(tpl_path)
-    try:
-        text = unit.build()
-    except X.Undecided as e:
-        res.status, res.reason = "undecided", str(e)
-        return res
-    path = os.path.join(WORK, name + ".rs")
-    open(path, "w").write(text)
-    res.unit_file = path
-    res.fns = unit.fns
-    res.rewrites = unit.rewrites
-    res.trusted = X.scan_trusted(text)
-    res.assumed = unit.assumed
-    res.required = unit.required
-    cmd, js, diags, wall, raw = run_verus(path)
-    res.cmd = " ".join(cmd)
-    if js is None:
-        res.status, res.reason = "undecided", "verus produced no result: %s" % (raw or "")[-2000:]
-        return res
-    vr = js.get("verification-results", {})
-    res.verified, res.errors = vr.get("verified", 0), vr.get("errors", 0)
-    tm = js.get("times-ms", {})
-    res.total_ms = tm.get("total", 0)
-    res.smt_ms = tm.get("smt", {}).get("smt-run", 0)
-    for m in tm.get("smt", {}).get("smt-run-module-times", []):
-        for fb in m.get("function-breakdown", []):
-            res.fn_times[fb["function"]] = dict(ms=fb.get("time", 0), rlimit=fb.get("rlimit", 0), success=fb.get("success"))
-    # classify diagnostics
-    front_end = []
+def _classify(unit, name, diags, vr, have_times):
+    """map Verus diagnostics to named obligations; returns (failures, front_end_errors, rlimit_reason)"""
+    failures, front_end, rlimit = [], [], ""
     for d in diags:
         if d.get("level") != "error":
             continue
@@ -157,11 +126,11 @@ def check_unit(tpl_path, vacuity=True, keep=True):
         spans = d.get("spans", [])
         prim = [s for s in spans if s.get("is_primary")]
         if RLIMIT.search(msg):
-            res.status, res.reason = "undecided", "solver resource limit: " + msg
+            rlimit = "solver resource limit: " + msg
             continue
         if kind is None:
             # Verus distinguishes front-end (VIR) errors from failed proof obligations in its JSON result
-            if vr.get("encountered-vir-error") or d.get("code") or not res.fn_times:
+            if vr.get("encountered-vir-error") or d.get("code") or not have_times:
                 front_end.append(d.get("rendered", msg))
                 continue
             kind = "other"
@@ -213,16 +182,116 @@ def check_unit(tpl_path, vacuity=True, keep=True):
         else:
             key = L.norm(clause_txt) or site_txt[:100]
         oid = "%s:%s:%s:%s" % (name, fname, kind, key)
-        res.failures.append(dict(id=oid, fn=fname, kind=kind, clause=clause_txt, site=site_txt,
+        lost = sorted(g for g in unit.lost_ghost.get(fname, ()) if re.search(r"\b%s\b" % re.escape(g), clause_txt + " " + (site_txt if kind != "post" else "")))
+        failures.append(dict(id=oid, fn=fname, kind=kind, clause=clause_txt, site=site_txt, lost_ghost=lost,
                                  site_origin=list(site_origin), clause_origin=list(clause_origin) if clause_origin else None,
                                  message=msg, rendered=d.get("rendered", ""), props=(fn["props"] if fn else [])))
+    return failures, front_end, rlimit
+
+
+def _verus_name(res, f):
+    """the name Verus uses for an extracted function (key of the per-function time table), or None"""
+    qual = f["qual"]
+    typ, _, meth = qual.rpartition("::")
+    typ = typ.split(" for ")[-1]
+    typ = re.sub(r"<.*$|\s+where\b.*$", "", typ).strip()
+    names = [f.get("out_name") or meth, meth, meth + "_body"]
+    for k in res.fn_times:
+        parts = k.split("::")
+        if parts[-1] in names and (not typ or (len(parts) >= 2 and parts[-2] == typ)) and (typ or len(parts) == 2):
+            return "::".join(parts[1:])
+    return None
+
+
+def _confirm_in_isolation(res, unit, name, path):
+    res.unconfirmed = []
+    by_fn = {}
+    for f in res.failures:
+        by_fn.setdefault(f["fn"], []).append(f)
+    keep = []
+    for fn, fs in by_fn.items():
+        info = [x for x in unit.fns if x["qual"] == fn]
+        vname = _verus_name(res, info[0]) if info else None
+        if vname is None:
+            keep += fs          # lemma / required impl / unmapped name: taken as reported
+            continue
+        cmd, js, diags, wall, raw = run_verus(path, extra=["--verify-root", "--verify-function", vname])
+        res.wall_s += wall
+        if js is None:
+            keep += fs
+            continue
+        vr = js.get("verification-results", {})
+        if vr.get("verified", 0) + vr.get("errors", 0) == 0:
+            keep += fs          # the name selected nothing
+            continue
+        iso, fe, rl = _classify(unit, name, diags, vr, True)
+        if fe or rl:
+            keep += fs
+            continue
+        ids = {x["id"] for x in iso}
+        for f in fs:
+            if f["id"] in ids:
+                f["confirmed_in_isolation"] = True
+                keep.append(f)
+            else:
+                res.unconfirmed.append(f["id"])
+        # an obligation that fails only in isolation is still a failed obligation
+        for x in iso:
+            if x["id"] not in {f["id"] for f in fs}:
+                x["confirmed_in_isolation"] = True
+                keep.append(x)
+    res.failures = keep
+
+
+def check_unit(tpl_path, vacuity=True, keep=True):
+    """assemble + verify one unit; returns UnitResult"""
+    res = UnitResult()
+    t0 = time.time()
+    os.makedirs(WORK, exist_ok=True)
+    name = os.path.basename(tpl_path).replace(".rs.tpl", "")
+    unit = X.Unit(tpl_path)
+    try:
+        text = unit.build()
+    except X.Undecided as e:
+        res.status, res.reason = "undecided", str(e)
+        return res
+    path = os.path.join(WORK, name + ".rs")
+    open(path, "w").write(text)
+    res.unit_file = path
+    res.fns = unit.fns
+    res.rewrites = unit.rewrites
+    res.trusted = X.scan_trusted(text)
+    res.assumed = unit.assumed
+    res.required = unit.required
+    cmd, js, diags, wall, raw = run_verus(path)
+    res.cmd = " ".join(cmd)
+    if js is None:
+        res.status, res.reason = "undecided", "verus produced no result: %s" % (raw or "")[-2000:]
+        return res
+    vr = js.get("verification-results", {})
+    res.verified, res.errors = vr.get("verified", 0), vr.get("errors", 0)
+    tm = js.get("times-ms", {})
+    res.total_ms = tm.get("total", 0)
+    res.smt_ms = tm.get("smt", {}).get("smt-run", 0)
+    for m in tm.get("smt", {}).get("smt-run-module-times", []):
+        for fb in m.get("function-breakdown", []):
+            res.fn_times[fb["function"]] = dict(ms=fb.get("time", 0), rlimit=fb.get("rlimit", 0), success=fb.get("success"))
+    res.failures, front_end, rl = _classify(unit, name, diags, vr, bool(res.fn_times))
+    if rl:
+        res.status, res.reason = "undecided", rl
+    # A failure counts only if it reproduces when the function is verified on its own: after a failed query Verus keeps
+    # going in a solver context that differs from a fresh one, and a proof that merely becomes unstable there is still a proof.
+    if res.failures and not front_end and not rl:
+        _confirm_in_isolation(res, unit, name, path)
     if front_end:
         res.status = "undecided"
         res.reason = "verifier front end rejected the unit (unsupported construct or contract error):\n" + "\n".join(front_end)[:4000]
     elif res.status != "undecided":
         if res.failures or res.errors:
             res.status = "failed"
-            if not res.failures:
+            if not res.failures and res.unconfirmed:
+                res.status = "ok"       # every reported failure was discharged when its function was verified alone
+            elif not res.failures:
                 res.status, res.reason = "undecided", "verus reported %d errors but none could be mapped" % res.errors
     # dedupe failures by id
     seen = {}
